@@ -60,7 +60,8 @@ def corrupt_fs(lines, pid):
 
 
 import os as _os
-_D2 = _os.path.join(_os.path.dirname(_os.path.dirname(_os.path.abspath(__file__))), ".build", "d2")
+import core as _core
+_D2 = _os.path.join(_core.BUILD, "d2")   # .build/d2, or the scratch build directory when VERIF_REPO points at a worktree
 FAMILIES["fs"] = dict(vdrive="fs", trace_module="TraceFSWrite", trace_cfg="TraceFSWrite.cfg", corrupt=corrupt_fs,
                       prebuild=_prebuild_d2, args={"d2": _D2}, engine="TraceFSWrite")
 
